@@ -32,8 +32,19 @@ theorem encStream_no_panic (P : Pred H) (plain : Array Nat) (blocks : List Block
     (hP : ∀ s m, P.repredictTok plain s ≠ .error (.panic m)) (m : String) :
     encStream P plain blocks pad ≠ .error (.panic m) := by
   intro h
-  have := encStream_post P plain blocks pad hv hP
+  have := encStream_post Tol.np P plain blocks pad hv (fun s e he m hm => hP s m (by rw [he, hm]))
   rw [h] at this
   exact Post.error_iff.mp this m rfl
+
+/-- … and `Err(PreflateError)` is its ONLY failure (no panic, no exhausted loop bound) when that is
+    so for the predictor's re-prediction -/
+theorem encStream_only_err (P : Pred H) (plain : Array Nat) (blocks : List Block) (pad : Nat)
+    (hv : StreamValid plain blocks)
+    (hP : ∀ s e, P.repredictTok plain s = .error e → e = .err) (e : Fail)
+    (h : encStream P plain blocks pad = .error e) : e = .err := by
+  have := encStream_post Tol.onlyErr P plain blocks pad hv hP
+  rw [h] at this
+  cases this with
+  | error _ he => exact he
 
 end Preflate.Proofs
